@@ -76,7 +76,9 @@ def correspond(ctx):
 
 def search(ctx):
     """join logic / engine model no longer matches: look for an engine-level violation of the statement"""
+    from harness import engine_stream
     from vlib import par
+    engine_stream.search_from_core(ctx, ['C04'], 'plain')
     par.run_parallel(ctx, 'harness.engine_stream', 'run_chunk',
                      [{'n_programs': 40, 'props': ['C04'], 'mode': 'plain',
                        'gen_kw': {'p_fail': 0.2, 'p_guard': 0.4}}] * 14)
